@@ -47,7 +47,7 @@ def Txt.name : Txt → String
   | .tfaAuthorizationRequired => "2FAAuthorizationRequired"
   | .invalid2FACode => "Invalid2FACode" | .repeated2FACode => "Repeated2FACode"
   | .totp2FANotActive => "TOTP2FANotActive" | .smsNumberRequired => "SMSNumberRequired"
-  | .smsWaitToResend => "SMSWaitToResend" | .recoveryTokenInvalid => "recovery token is invalid"
+  | .smsWaitToResend => "SMSWaitToResend" | .recoveryTokenInvalid => "RecoveryTokenInvalid"
   | .validationFailed => "validation"
 
 abbrev Jar := List (SKey × Bytes)
